@@ -45,4 +45,16 @@ def accessOK (a : Access) : Bool :=
 
 def locksetOK (tbl : List Access) : Bool := tbl.all accessOK
 
+/-- the two accesses cannot overlap in time: both hold one mutex, at least one of them exclusively -/
+def excl (a b : Access) : Bool :=
+  a.held.any fun ha => b.held.any fun hb => ha.1 == hb.1 && (ha.2 == .w || hb.2 == .w)
+
+/-- the executable converse: for a table that breaks the discipline, an offending access and — when there is one — a
+    conflicting access of the same field that nothing keeps apart from it (the witness the check reports) -/
+def raceWitness (tbl : List Access) : Option (Access × Option Access) :=
+  match tbl.find? (fun a => !accessOK a) with
+  | none => none
+  | some a =>
+    some (a, tbl.find? fun b => b.field == a.field && (a.write || b.write) && !b.init && !excl a b)
+
 end Pcore.Lockset
